@@ -41,7 +41,7 @@ THEOREMS = ["C06_try_from_data_exact", "C06_from_data_with_strides_exact", "C06_
 def main(ctx):
     ctx.rule = ("per build profile (release, debug): exhaustive small scope (contiguous constructors: rank<=3, sizes<=2 (quick) / <=3 "
                 "(thorough), lengths product-1..product+1; strided constructors: rank<=2, sizes<=2/3, strides<=3/5, lengths "
-                "min_data_len-1..+1), a fixed family of overflow inputs (F4 and variants), and seeded random cases (derived layouts, "
+                "min_data_len-1..+1; rank 3 with three non-unit dims and arbitrary strides<=6/8 at length max_off+1), has_capacity on size-1 axes with stale strides, histories (from_data with spare capacity, then append/transpose/permute, then has_capacity on the reached state), a fixed family of overflow inputs (F4 and variants), and seeded random cases (derived layouts, "
                 "extreme usize shapes/strides/lengths incl. values engineered to wrap, mismatched shape/stride lengths, pure offset "
                 "queries, has_capacity, weakly-checked indexing); each accepted in-bounds tensor is probed with get/Index/offset on all "
                 "(<=24) or corner valid indices and on invalid ones; non-trivial = every case except skipped ones (base tensor not "
